@@ -24,7 +24,9 @@ Open Scope Z_scope.
 Theorem gen_threshold_small_exp : threshold_small_exp_gen = threshold_small_exp.
 Proof. reflexivity. Qed.
 
-Theorem gen_large_work_precision p e B NB : large_work_precision_gen p e B NB = 2 * p + dlen NB (e * ElemF32.bit_len B).
+(** since the repair F11: + the digits of 2^20 (guard digits for the constant factors of the error) *)
+Theorem gen_large_work_precision p e B NB :
+  large_work_precision_gen p e B NB = 2 * p + dlen NB (e * ElemF32.bit_len B) + dlen NB 1048576.
 Proof. reflexivity. Qed.
 
 Theorem gen_from_float_prec man : from_float_prec_gen man = ElemF32.bit_len man.
@@ -59,23 +61,43 @@ Qed.
 
 (** the digits the repair added cover the integer part of exponent * ln B:
     NB^(wp - 1) > NB^(2p - 1) * |exponent| * ElemF32.bit_len B *)
+Theorem gen_large_work_precision_guard p e B NB : 2 <= NB -> 2 <= B -> 1 <= p -> e <> 0 ->
+  let wp := large_work_precision_gen p e B NB in
+  let g := dlen NB 1048576 in
+  1 <= g /\ 1048576 < NB ^ g /\ 2 * p + g < wp /\ NB ^ (2 * p - 1 + g) * (Z.abs e * ElemF32.bit_len B) < NB ^ (wp - 1).
+Proof.
+  intros HN HB Hp He wp g. unfold wp. rewrite gen_large_work_precision. fold g.
+  assert (BL : 1 <= ElemF32.bit_len B) by (pose proof (log2_up_le_bit_len B HB); pose proof (Z.log2_up_pos B ltac:(lia)); lia).
+  assert (X0 : e * ElemF32.bit_len B <> 0) by nia.
+  destruct (dlen_spec NB HN _ X0) as [[_ U] D1]. set (d := dlen NB (e * ElemF32.bit_len B)) in *.
+  destruct (dlen_spec NB HN 1048576 ltac:(lia)) as [[_ UG] G1]. fold g in UG, G1. rewrite Z.abs_eq in UG by lia.
+  split; [exact G1|]. split; [exact UG|]. split; [lia|].
+  replace (2 * p + d + g - 1) with ((2 * p - 1 + g) + d) by lia. rewrite (Z.pow_add_r NB (2 * p - 1 + g) d) by lia.
+  assert (P : 0 < NB ^ (2 * p - 1 + g)) by (apply Z.pow_pos_nonneg; lia).
+  rewrite Z.abs_mul, (Z.abs_eq (ElemF32.bit_len B)) in U by lia.
+  apply Z.mul_lt_mono_pos_l; [exact P | exact U].
+Qed.
+
+(** the digits the repair F07 added cover the integer part of exponent * ln B:
+    NB^(wp - 1) > NB^(2p - 1) * |exponent| * ElemF32.bit_len B *)
 Theorem gen_large_work_precision_covers p e B NB : 2 <= NB -> 2 <= B -> 1 <= p -> e <> 0 ->
   let wp := large_work_precision_gen p e B NB in
   2 * p < wp /\ NB ^ (2 * p - 1) * (Z.abs e * ElemF32.bit_len B) < NB ^ (wp - 1).
 Proof.
-  intros HN HB Hp He wp. unfold wp. rewrite gen_large_work_precision.
-  assert (BL : 1 <= ElemF32.bit_len B) by (pose proof (log2_up_le_bit_len B HB); pose proof (Z.log2_up_pos B ltac:(lia)); lia).
-  assert (X0 : e * ElemF32.bit_len B <> 0) by nia.
-  destruct (dlen_spec NB HN _ X0) as [[_ U] D1]. set (d := dlen NB (e * ElemF32.bit_len B)) in *.
+  intros HN HB Hp He wp.
+  destruct (gen_large_work_precision_guard p e B NB HN HB Hp He) as (G1 & _ & W1 & W2). fold wp in W1, W2.
   split; [lia|].
-  replace (2 * p + d - 1) with ((2 * p - 1) + d) by lia. rewrite Z.pow_add_r by lia.
-  assert (P : 0 < NB ^ (2 * p - 1)) by (apply Z.pow_pos_nonneg; lia).
-  rewrite Z.abs_mul, (Z.abs_eq (ElemF32.bit_len B)) in U by lia. nia.
+  assert (BL : 1 <= ElemF32.bit_len B) by (pose proof (log2_up_le_bit_len B HB); pose proof (Z.log2_up_pos B ltac:(lia)); lia).
+  assert (X1 : 0 < Z.abs e * ElemF32.bit_len B) by nia.
+  assert (PP : NB ^ (2 * p - 1) <= NB ^ (2 * p - 1 + dlen NB 1048576)) by (apply Z.pow_le_mono_r; lia).
+  assert (NB ^ (2 * p - 1) * (Z.abs e * ElemF32.bit_len B) <= NB ^ (2 * p - 1 + dlen NB 1048576) * (Z.abs e * ElemF32.bit_len B))
+    by (apply Z.mul_le_mono_nonneg_r; lia).
+  lia.
 Qed.
 
 Theorem gen_large_work_precision_full p e B NB : 2 <= NB -> 2 <= B -> 1 <= p -> e <> 0 ->
   let wp := large_work_precision_gen p e B NB in
-  wp = 2 * p + dlen NB (e * ElemF32.bit_len B) /\ 2 * p < wp /\
+  wp = 2 * p + dlen NB (e * ElemF32.bit_len B) + dlen NB 1048576 /\ 2 * p < wp /\
   NB ^ (2 * p - 1) * (Z.abs e * ElemF32.bit_len B) < NB ^ (wp - 1).
 Proof.
   intros H1 H2 H3 H4 wp. split; [exact (gen_large_work_precision p e B NB)|].
@@ -346,6 +368,73 @@ Proof.
     rewrite !mult_IZR. unfold en, tn. fold tnz. unfold D. fold Dz. lra.
 Qed.
 
+(** since the repair F11 (guard digits: NB^g > 2^20) NO condition on the target precision is left: for every p >= 1,
+    every exponent, every base below 2^64 and k <= 1024 the bound holds, with eps <= 18 k log2up(NB) NB^(1-2p) / 2^20 *)
+Theorem convert_large_route_error_guarded (rB rNB : radix) (p k e q s : Z) (a c m r E Rf : R) :
+  let wp := large_work_precision_gen p e rB rNB in
+  let LB := ln (IZR rB) in let LN := ln (IZR rNB) in
+  let D := IZR (rNB ^ (wp - 1)) in let u := / D in let kap := IZR k * u in
+  let tn := IZR (lr_tn k rB rNB e) in
+  let en := IZR k * D + 2 * tn * D + 2 * IZR k * tn in
+  (1 <= k <= 1024)%Z -> (1 <= p)%Z -> e <> 0%Z -> (rNB < 2 ^ 64)%Z ->
+  Rabs (a - LB) <= kap * LB -> Rabs (c - LN) <= kap * LN ->
+  Rabs (m - IZR e * a) <= u * Rabs (IZR e * a) ->
+  0 <= m - IZR q * c < c -> Rabs (r - (m - IZR q * c)) <= u * (m - IZR q * c) ->
+  Rabs (E - exp r) <= kap * exp r ->
+  Rabs (Rf - IZR s * E * bpow rNB q) <= bpow rNB (1 - p) * Rabs (IZR s * E * bpow rNB q) ->
+  Rabs (Rf - IZR s * bpow rB e) <=
+    (bpow rNB (1 - p) * (1 + en / (D * D)) + en / (D * D)) * Rabs (IZR s * bpow rB e) /\
+  en / (D * D) <= IZR (18 * k * Z.log2_up rNB) * bpow rNB (1 - 2 * p) / 1048576.
+Proof.
+  intros wp LB LN D u kap tn en Hk Hp He HW C1 C2 C3 C4 C5 C6 C7.
+  pose proof (radix_gt_1 rB) as GB. pose proof (radix_gt_1 rNB) as GN.
+  destruct (gen_large_work_precision_guard p e rB rNB ltac:(lia) ltac:(lia) Hp He) as (G1 & UG & W1 & W2). fold wp in W1, W2.
+  set (g := dlen rNB 1048576) in *.
+  pose proof (log2_up_le_bit_len rB ltac:(lia)) as BL.
+  pose proof (Z.log2_up_pos rNB ltac:(lia)) as LNpos. pose proof (Z.log2_up_nonneg rB) as LB0.
+  assert (L64 : (Z.log2_up rNB <= 64)%Z).
+  { apply Z.log2_up_le_pow2; [lia|]. lia. }
+  set (P0 := (rNB ^ (2 * p - 1))%Z) in *.
+  set (P := (rNB ^ (2 * p - 1 + g))%Z) in *. set (Dz := (rNB ^ (wp - 1))%Z) in *.
+  set (X := (Z.abs e * ElemF32.bit_len rB)%Z) in *. set (L2N := Z.log2_up rNB) in *. set (L2B := Z.log2_up rB) in *.
+  set (tnz := lr_tn k rB rNB e). assert (Etn : tnz = (k * (3 * L2N + 5 * Z.abs e * L2B))%Z) by reflexivity.
+  pose proof (Z.log2_up_pos rB ltac:(lia)) as LBpos. fold L2B in LBpos.
+  assert (PP0 : (0 < P0)%Z) by (apply Z.pow_pos_nonneg; lia).
+  assert (EP : (P = P0 * rNB ^ g)%Z) by (unfold P, P0; rewrite Z.pow_add_r by lia; reflexivity).
+  assert (PP : (0 < P)%Z) by (apply Z.pow_pos_nonneg; lia).
+  assert (PG : (P0 * 1048576 <= P)%Z) by (rewrite EP; apply Z.mul_le_mono_nonneg_l; lia).
+  assert (Ae : (1 <= Z.abs e)%Z) by lia.
+  assert (A1 : (Z.abs e * L2B <= X)%Z) by (unfold X; clear - BL Ae LBpos; nia).
+  assert (A2 : (1 <= X)%Z) by (clear - A1 Ae LBpos; nia).
+  assert (Hdom : (16 * k * L2N <= P)%Z).
+  { assert ((16 * k * L2N <= 16 * 1024 * 64)%Z) by (clear - Hk L64 LNpos; nia). clear - H PG PP0. nia. }
+  destruct (fixed_domain_Z k P Dz X e L2N L2B tnz ltac:(lia) PP Ae ltac:(lia) ltac:(lia) A1 A2 Hdom W2 Etn) as [T1 [T2 [PDz HZ]]].
+  split.
+  - apply (convert_large_route_error_wp rB rNB p wp k e q s a c m r E Rf ltac:(lia) ltac:(lia)); try assumption.
+    + fold tnz. fold Dz. change 2 with (IZR 2). rewrite <- mult_IZR. apply IZR_le. exact T1.
+    + fold Dz. change 4 with (IZR 4). rewrite <- mult_IZR. apply IZR_le. lia.
+  - (* en * P <= 18 k L2N * D^2 and P0 * 2^20 <= P *)
+    apply IZR_le in HZ. rewrite !mult_IZR, !plus_IZR, !mult_IZR in HZ.
+    apply IZR_le in PG. rewrite mult_IZR in PG.
+    assert (PD : 0 < D) by (unfold D; apply IZR_lt; exact PDz).
+    assert (PPr : 0 < IZR P) by (apply IZR_lt; exact PP).
+    assert (PPr0 : 0 < IZR P0) by (apply IZR_lt; exact PP0).
+    assert (Eb : bpow rNB (1 - 2 * p) = / IZR P0).
+    { replace (1 - 2 * p)%Z with (- (2 * p - 1))%Z by lia. rewrite bpow_opp, <- IZR_Zpower by lia. reflexivity. }
+    rewrite Eb.
+    assert (K0 : 0 <= IZR (18 * k * L2N)) by (apply IZR_le; lia).
+    assert (EN0 : 0 <= en).
+    { unfold en, tn. fold tnz. assert (0 <= IZR tnz) by (apply IZR_le; rewrite Etn; nia). assert (0 <= IZR k) by (apply IZR_le; lia). nra. }
+    (* en / D^2 <= 18 k L2N / P <= 18 k L2N / (P0 * 2^20) *)
+    apply (Rle_trans _ (IZR (18 * k * L2N) / IZR P)).
+    + apply (Rmult_le_reg_r (D * D * IZR P)); [repeat apply Rmult_lt_0_compat; assumption|].
+      replace (en / (D * D) * (D * D * IZR P)) with (en * IZR P) by (field; lra).
+      replace (IZR (18 * k * L2N) / IZR P * (D * D * IZR P)) with (IZR (18 * k * L2N) * (D * D)) by (field; lra).
+      rewrite !mult_IZR. unfold en, tn. fold tnz. unfold D. fold Dz. lra.
+    + unfold Rdiv. rewrite Rmult_assoc. apply Rmult_le_compat_l; [exact K0|].
+      rewrite <- Rinv_mult. apply Rinv_le_contravar; [lra | lra].
+Qed.
+
 (** non-vacuity: an exact computation meets the contracts (4^1 to base 2 at precision 4, k = 4) *)
 Example convert_large_route_error_fixed_ex (s : Z) :
   let rB := Build_radix 4 eq_refl in
@@ -401,7 +490,7 @@ Qed.
 (** after the repair F07 the witness of the old behaviour is inside the accurate domain: 9e-39 to 3 bits worked at
     6 digits (no accuracy guaranteed, answer off by a factor 30), now at 6 + 8 digits *)
 Example large_work_precision_ex :
-  large_work_precision_gen 3 (-39) 10 2 = 14%Z /\
+  large_work_precision_gen 3 (-39) 10 2 = 35%Z /\
   large_route_check 4 10 2 3 (-39) 9 (10 ^ 39) 3 (-123) = None /\
   large_route_check_wp 4 10 2 3 14 (-39) 9 (10 ^ 39) 3 (-123) = Some false /\
   large_route_check_wp 4 10 2 3 14 (-39) 9 (10 ^ 39) 3 (-128) = Some true.
